@@ -287,6 +287,9 @@ def ops_language():
     # requirements with a set operator below a collect: evaluated per asset reached, not over the pooled targets
     steps.append(LG.step('exi', 'exist', requires=[CO(F('pb'), I(F('pb'), F('qb')))]))
     steps.append(LG.step('nexd', 'notExist', requires=[CO(F('pb'), D(F('pb'), F('qb')))]))
+    # requirements filtered by a type with sub-types two and three levels below it
+    steps.append(LG.step('exs', 'exist', requires=[ST('Bb', F('pb'))]))
+    steps.append(LG.step('nexs', 'notExist', requires=[CO(F('qb'), ST('Cc', F('pb')))]))
     steps.append(LG.step('df', 'defense', ttc=LG.TTC_ENABLED))
     return LG.lang([LG.asset('Aa', None, steps, variables=[('vv', CO(F('pb'), F('qb')))]), LG.asset('Bb', 'Aa'),
                     LG.asset('Cc', 'Bb'), LG.asset('Dd', 'Cc')],
@@ -345,10 +348,12 @@ def make_cases(pid, impl, tier, seed):
         from maltoolbox.model import Model
         L = ops_language()
         lg, lcf = MG.make_lang(impl, L)
-        for names in itertools.product(['x', 'x:1', 'x:0', 'x:1:2'], repeat=3):
+        # ... and assets added without a name (named <type>:<id> by the model) next to assets asking for those names
+        for names in list(itertools.product(['x', 'x:1', 'x:0', 'x:1:2'], repeat=3)) + \
+                list(itertools.product([None, 'Aa:0', 'Aa:1', 'Aa:2'], repeat=3)):
             m = Model('names', lcf)
             for nm in names:
-                a = lcf.ns.Aa(name=nm)
+                a = lcf.ns.Aa(name=nm) if nm is not None else lcf.ns.Aa()
                 if rng.random() < 0.5:
                     a.df = rng.choice([0.0, 0.5])
                 m.add_asset(a)
